@@ -362,6 +362,14 @@ func enumerateFaults(p C04Plan, x xfer, stream []byte) []C04Fault {
 				}
 			}
 		}
+		// an empty block (STX, length byte 0) slipped in at a block boundary:
+		// byte sum and byte count of the data are unchanged, but a length byte
+		// of 0 announces 256 bytes
+		for _, off := range markers[1:] {
+			if off < x.End {
+				add("ins-empty-block", pipe.Edit{Off: off, Kind: "ins", Val: 0x02}, pipe.Edit{Off: off, Kind: "ins", Val: 0x00})
+			}
+		}
 		if len(dataOffs) >= 2 {
 			for k, pr := range p.Pairs {
 				i := dataOffs[int(pr.I*float64(len(dataOffs)))%len(dataOffs)]
@@ -529,6 +537,8 @@ func kindClass(k string) string {
 		return "length-changing"
 	case "sub-marker", "sub-star":
 		return "framing-byte"
+	case "ins-empty-block":
+		return "empty-block"
 	}
 	return "substitution"
 }
